@@ -101,7 +101,14 @@ pub fn scenario(g: &mut G, ctx: &RunCtx) -> RunReport {
         url_query: vec![],
         params: vec![],
         params_batch: false,
-        headers: vec![],
+        // a Content-Type the caller (or a session default) had set before attaching the form must not
+        // keep the form's own type and boundary off the wire
+        headers: if g.chance(1, 5) {
+            g.probe("content-type-set-before-the-form");
+            vec![("Content-Type".to_string(), (*g.pick(&["application/json", "multipart/form-data; boundary=stale", "text/plain"])).as_bytes().to_vec(), false)]
+        } else {
+            vec![]
+        },
         auth: Auth::None,
         body: BodySpec::Multipart(form.clone()),
     };
